@@ -2,12 +2,17 @@ package sim
 
 import (
 	"context"
+	"encoding/json"
 	"errors"
+	"fmt"
+	"os"
 	"strings"
 	"time"
 
 	"github.com/sharedcode/sop"
 )
+
+var debugL2 = os.Getenv("VERIF_DEBUG") != ""
 
 // ErrCache is the error returned by an injected cache failure.
 var ErrCache = errors.New("sim: injected cache failure")
@@ -179,6 +184,14 @@ func (p *L2Proxy) IsRestarted(ctx context.Context) bool {
 func (p *L2Proxy) SetStruct(ctx context.Context, key string, value interface{}, exp time.Duration) error {
 	if _, err := p.fault("l2.SetStruct", key); err != nil {
 		return err
+	}
+	if debugL2 && strings.Contains(key, ":st") {
+		name := "-"
+		if p.S.Cur() != nil {
+			name = p.S.Cur().Name
+		}
+		b, _ := json.Marshal(value)
+		fmt.Fprintf(os.Stderr, "DEBUG SetStruct seq=%d task=%s key=%s value=%.200s\n", p.S.Seq(), name, key, b)
 	}
 	return p.Inner.SetStruct(ctx, key, value, exp)
 }
